@@ -12,7 +12,10 @@ PROPS_MODULE = 'SympdeModel.Props.C17'
 RULE = ('kernels in dimension 1-3 over 3 scalar and 3 vector functions: sums of products of derivative chains '
         '(0-4 derivatives, physical or logical, 12 % mixing both kinds in blocks) of functions / vector components '
         'with numeric, Constant and coordinate coefficients, integer / Constant / chain-valued exponents, '
-        'sin/cos/exp of sub-kernels, matrices and tuples of kernels.  One case = one call of SymbolicExpr, '
+        'sin/cos/exp of sub-kernels, matrices (square and non-square: 1xn, nx1, 2x3, 3x2, ...) and tuples of kernels; '
+        'the oracle additionally assembles matrices of every shape up to 4x4 / tuples / lists from explicit entry '
+        'descriptions and compares shape and every entry with a result assembled from the descriptions alone.  '
+        'One case = one call of SymbolicExpr, '
         'get_max_(logical_)partial_derivatives (overall and per function), get_index_(logical_)derivatives_atom or '
         'sort_partial_derivatives; non-trivial = the kernel holds at least one derivative chain; distinct by request line')
 ASSUMPTIONS = [
@@ -120,7 +123,7 @@ class Gen:
         if k < 0.72:
             return self.scalar()
         if k < 0.9:
-            nr, nc = r.choice([(1, 2), (2, 1), (2, 2), (1, 3), (3, 3)])
+            nr, nc = r.choice([(1, 2), (2, 1), (2, 2), (1, 3), (3, 1), (2, 3), (3, 2), (3, 3)])
             cls = m['Matrix'] if r.random() < 0.5 else m['ImmutableDenseMatrix']
             return cls(nr, nc, [self.scalar(1) for _ in range(nr * nc)])
         return m['Tuple'](*[self.scalar(1) for _ in range(r.choice([1, 2, 3]))])
@@ -305,6 +308,133 @@ def chain_id(atom, blocks):
     return (str(atom), tuple((lg, tuple(sorted(cnt.items()))) for lg, cnt in blocks))
 
 
+# ---- matrices / sequences assembled from explicit descriptions (JSON-able, so a failure can be replayed)
+#   chain  = {'f': ['s', i] | ['v', i, comp], 'lg': bool, 'cs': [coordinate names, innermost first]}
+#   entry  = {'form': ..., 'c': int, 'ch': [chain, chain]}
+#   mspec  = {'dim': d, 'cls': 'Matrix' | 'ImmutableDenseMatrix' | 'Tuple' | 'tuple' | 'list', 'shape': [r, c], 'rows': [[entry]]}
+
+FORMS = ('chain', 'prod', 'sum', 'sinsq', 'pow', 'coord', 'number')
+SHAPES = [(1, 2), (2, 1), (1, 3), (3, 1), (2, 3), (3, 2), (1, 4), (4, 1), (2, 4), (4, 2), (3, 4), (4, 3),
+          (1, 1), (2, 2), (3, 3), (4, 4)]
+
+
+def spec_atom(env, f):
+    return env.sf[f[1]] if f[0] == 's' else env.vf[f[1]][f[2]]
+
+
+def spec_chain_real(env, ops, ch):
+    a = spec_atom(env, ch['f'])
+    for c in ch['cs']:
+        a = ops[c](a)
+    return a
+
+
+def spec_chain_symbol(env, m, ch):
+    """the statement's naming, from the description alone: name[_component][_sorted code]"""
+    f = ch['f']
+    name = str(env.sf[f[1]].name) if f[0] == 's' else '%s_%d' % (env.vf[f[1]].name, f[2])
+    order = LOGI if ch['lg'] else PHYS
+    code = ''.join(k * ch['cs'].count(k) for k in order)
+    return m['Symbol'](name + ('_' + code if code else ''))
+
+
+def spec_entry(env, m, e, f):
+    """the entry built with f = real chain or f = expected symbol"""
+    a, b = f(e['ch'][0]), f(e['ch'][1])
+    c = m['S'](e['c'])
+    form = e['form']
+    if form == 'chain':
+        return a
+    if form == 'prod':
+        return c * a * b
+    if form == 'sum':
+        return a + c * b
+    if form == 'sinsq':
+        return 2 * a * b + m['sin'](a) ** 2
+    if form == 'pow':
+        return a ** 2 + b
+    if form == 'coord':
+        return env.coords[e['c'] % env.dim] * a + env.cst[e['c'] % 2]
+    return c
+
+
+def gen_mspec(rng, dim, shape=None, cls=None):
+    def chain():
+        lg = rng.random() < 0.4
+        names = (LOGI if lg else PHYS)[:dim]
+        f = ['s', rng.randrange(3)] if rng.random() < 0.55 else ['v', rng.randrange(3), rng.randrange(dim)]
+        return {'f': f, 'lg': lg, 'cs': [rng.choice(names) for _ in range(rng.choice([0, 1, 1, 1, 2, 2, 3]))]}
+    if cls is None:
+        cls = rng.choice(['Matrix', 'Matrix', 'ImmutableDenseMatrix', 'ImmutableDenseMatrix', 'Tuple', 'tuple', 'list'])
+    if cls in ('Matrix', 'ImmutableDenseMatrix'):
+        nr, nc = shape or rng.choice(SHAPES[:12] * 2 + SHAPES[12:])
+    else:
+        nr, nc = 1, (shape or (1, rng.choice([1, 2, 3, 4, 5])))[1]
+    rows = [[{'form': rng.choice(FORMS), 'c': rng.choice([2, 3, -1, 5, 7]), 'ch': [chain(), chain()]} for _ in range(nc)] for _ in range(nr)]
+    return {'dim': dim, 'cls': cls, 'shape': [nr, nc], 'rows': rows}
+
+
+def check_mspec(m, envs, spec):
+    """None when SymbolicExpr keeps the shape and converts every entry in place, else (key, what)"""
+    env = envs[spec['dim']]
+    dv, SE = m['dv'], m['SymbolicExpr']
+    ops = {'x': dv.dx, 'y': dv.dy, 'z': dv.dz, 'x1': dv.dx1, 'x2': dv.dx2, 'x3': dv.dx3}
+    real = [[spec_entry(env, m, e, lambda ch: spec_chain_real(env, ops, ch)) for e in row] for row in spec['rows']]
+    want = [[spec_entry(env, m, e, lambda ch: spec_chain_symbol(env, m, ch)) for e in row] for row in spec['rows']]
+    nr, nc = spec['shape']
+    cls = spec['cls']
+    key = 'matrix:%s:%dx%d:%s' % (cls, nr, nc, str(real)[:300])
+    Mat = (m['Matrix'], m['ImmutableDenseMatrix'])
+    if cls in ('Matrix', 'ImmutableDenseMatrix'):
+        M = m[cls](real)
+        r = call(SE, M)
+        if r[0] == 'err':
+            return key, 'SymbolicExpr raises %s(%s) on the %dx%d %s %s' % (type(r[1]).__name__, r[1], nr, nc, cls, str(real)[:300])
+        got = r[1]
+        if not isinstance(got, Mat):
+            return key, 'SymbolicExpr(%dx%d %s) is not a matrix: %s' % (nr, nc, cls, str(got)[:300])
+        if tuple(got.shape) != (nr, nc):
+            return key, 'SymbolicExpr changes the shape of a matrix: input %s %s of shape %s -> result %s of shape %s' % (
+                cls, str(real)[:300], (nr, nc), str(got)[:300], tuple(got.shape))
+        if type(got) is not type(M):
+            return key, 'SymbolicExpr(%s) returns a %s' % (cls, type(got).__name__)
+        for i in range(nr):
+            for j in range(nc):
+                if got[i, j] != want[i][j]:
+                    return key, 'entry (%d,%d) of SymbolicExpr(%s %s) is %s, expected the conversion of entry (%d,%d) = %s' % (
+                        i, j, cls, str(real)[:300], got[i, j], i, j, want[i][j])
+                if got[i, j] != SE(M[i, j]):
+                    return key, 'entry (%d,%d) of SymbolicExpr(M) is %s but SymbolicExpr(M[%d,%d]) = %s (M = %s %s)' % (
+                        i, j, got[i, j], i, j, SE(M[i, j]), cls, str(real)[:300])
+        return None
+    seq = {'Tuple': lambda x: m['Tuple'](*x), 'tuple': tuple, 'list': list}[cls](real[0])
+    r = call(SE, seq)
+    if r[0] == 'err':
+        return key, 'SymbolicExpr raises %s(%s) on the %s %s' % (type(r[1]).__name__, r[1], cls, str(real)[:300])
+    got = r[1]
+    if not isinstance(got, m['Tuple']) or len(got) != nc:
+        return key, 'SymbolicExpr(%s of %d kernels %s) = %s: expected a Tuple of %d conversions' % (cls, nc, str(real)[:300], str(got)[:300], nc)
+    for j in range(nc):
+        if got[j] != want[0][j]:
+            return key, 'item %d of SymbolicExpr(%s %s) is %s, expected %s' % (j, cls, str(real)[:300], got[j], want[0][j])
+    return None
+
+
+def fixed_mspecs():
+    """deterministic layouts of every non-square shape (both matrix classes) and of the three sequence types"""
+    import random
+    rng = random.Random(1717)
+    out = []
+    for dim in (3, 2):
+        for shape in SHAPES[:12] if dim == 3 else [(1, 2), (2, 1), (2, 2)]:
+            for cls in ('Matrix', 'ImmutableDenseMatrix'):
+                out.append(gen_mspec(rng, dim, shape, cls))
+    for cls in ('Tuple', 'tuple', 'list'):
+        for n in (1, 3):
+            out.append(gen_mspec(rng, 3, (1, n), cls))
+    return out
+
+
 def oracle(ctx, factor, seeds):
     m = mods()
     o = Oracle()
@@ -364,6 +494,30 @@ def oracle(ctx, factor, seeds):
     F_0 = element_of(E3.V, name=str(Fv.name) + '_0')
     if SE(Fv[0]) == SE(F_0):
         o.fail('hygiene:F_0', 'SymbolicExpr(F[0]) == SymbolicExpr(F_0) for a scalar function literally named F_0', op='name')
+
+    # ---- matrices of every shape and sequences: shape kept, entry (i,j) = conversion of entry (i,j)
+    mspecs = fixed_mspecs()
+    for i in range((1500 if ctx.thorough else 250) * factor):
+        mspecs.append(gen_mspec(rng, rng.choice([1, 2, 2, 3, 3])))
+    for spec in mspecs:
+        o.evaluations += 1
+        bad = check_mspec(m, envs, spec)
+        if bad:
+            o.fail(bad[0], bad[1], mspec=spec, op='matrix')
+        else:
+            nr, nc = spec['shape']
+            o.count('matrix:%s:%s' % (spec['cls'], 'square' if nr == nc else ('row' if nr == 1 else ('column' if nc == 1 else 'rectangular')))
+                    if spec['cls'] in ('Matrix', 'ImmutableDenseMatrix') else 'sequence:' + spec['cls'])
+    # a non-square matrix inside a tuple keeps its shape as well
+    o.evaluations += 1
+    Mx = m['Matrix']([[dv.dx(f), dv.dy(f), dv.dx(dv.dy(g))]])
+    r = call(SE, (Mx, dv.dx(g)))
+    if r[0] == 'err' or not isinstance(r[1], m['Tuple']) or len(r[1]) != 2 or tuple(getattr(r[1][0], 'shape', ())) != (1, 3) \
+            or list(r[1][0]) != [m['Symbol'](f.name + '_x'), m['Symbol'](f.name + '_y'), m['Symbol'](g.name + '_xy')] \
+            or r[1][1] != m['Symbol'](g.name + '_x'):
+        o.fail('matrix-in-tuple:1x3', 'SymbolicExpr((Matrix 1x3 [dx(f), dy(f), dx(dy(g))], dx(g))) = %s' % (r[1],), op='matrix')
+    else:
+        o.count('matrix:in-tuple')
 
     # ---- bookkeeping on random kernels
     nk = (4000 if ctx.thorough else 700) * factor
@@ -481,6 +635,16 @@ def replay(ctx, path):
     d = json.load(open(path))
     print(json.dumps(d, indent=1)[:3500])
     key = d.get('key', '')
+    spec = (d.get('detail') or {}).get('mspec')
+    if spec:
+        m = mods()
+        envs = {dd: Env(dd, tag='c17') for dd in (1, 2, 3)}
+        bad = check_mspec(m, envs, spec)
+        if bad:
+            print('REPLAY: still failing:', bad[1])
+            return 1
+        print('REPLAY: the recorded matrix / sequence is converted entry by entry again')
+        return 0
 
     class C:
         pass
@@ -494,7 +658,7 @@ def replay(ctx, path):
         print('REPLAY: still failing:', still[0]['what'])
         return 1
     fixed = [f['key'] for f in o.failures]
-    if key.split(':')[0] in ('max', 'hom', 'name', 'collision', 'order', 'symb-raises', 'symb-incomplete', 'name-type'):
+    if key.split(':')[0] in ('max', 'hom', 'name', 'collision', 'order', 'symb-raises', 'symb-incomplete', 'name-type', 'matrix'):
         print('REPLAY: random kernel; re-run `VERIF_SEED=%s ./check C17 --tier %s` to regenerate it; fixed corpus now fails on: %s' % (
             d.get('seed'), d.get('tier'), fixed))
         return 0
